@@ -15,3 +15,8 @@ claim("C12",
       "exhaustive depth/deviation-bounded enumeration of tick/write interleavings on the real Timer in lock-step with a cycle-indexed reference timer",
       "Every sequence over {tick, wDIV, wTIMA v, wTMA v, wTAC t} (16 events) up to depth 9 with at most 3 writes (thorough: depth 14 / 3 writes and depth 9 / 4 writes) is executed on the real timer.Timer from ~5,000 start states placed at every counter phase around the rising and falling edge of each selectable bit, around counter wrap and at power-on; after every event DIV/TIMA/TMA/TAC read-back and the interrupt result are compared with an independent reference timer whose reload machine is indexed by cycles only. Writes are additionally placed at every offset around every overflow of long runs.",
       "Trusted: ref/timer.go (Pan Docs timer obscure behaviour). Don't-cares pruned rather than judged: writes in the cycle after a cancelled reload; increment coinciding with a TMA-write load. Value alphabet for TIMA/TMA writes is {00,57,FF}.")
+
+claim("C08",
+      "explicit-state BFS closure of each controller's register machine on the real Mapper against a reference bank model, plus exhaustive write sweeps",
+      "For MBC1, MBC2, MBC3 and MBC5 and every declared ROM size up to the controller's documented maximum, the reachable register states are closed breadth-first under writes of values to 14 control-region representatives (all 256 values at the largest size and in the thorough tier; a boundary value set otherwise); after each write both ROM windows are identified by unique page signatures and compared with the documented bank arithmetic (5+2 bit / mode / 0->1 / modulo). Every supported cartridge-type byte (incl. ROM-only) additionally gets fixed-order sweeps of all 3,584 (address,value) writes, and every page is re-read byte by byte afterwards.",
+      "Trusted: ref/cart.go (Pan Docs MBC sections), the snapshot hook VMBCSave/VMBCLoad (copies the controller struct). State key = visible page ids + model registers; hidden implementation state outside the key is additionally exercised by the long sweeps.")
